@@ -85,6 +85,20 @@ __CPROVER_ensures(sq_thrown==0 && gk<comp_n ==> SQ_SAME(self->components[gk], co
 //@SUB /std::copy\(\s*comp\.begin\(\)\s*,\s*comp\.end\(\)\s*,\s*components\s*\)/sq_copyn(comp_d,comp_n,components)/ min=1
 }
 
+/* GetComponents(): the component list of the vector, exactly (C01: list -> vector -> list is the identity together with su_ctor_list's value postcondition) */
+#undef SQ_RET
+#define SQ_RET
+void su_GetComponents(const struct SU_vector* self, double* x)
+__CPROVER_requires(__CPROVER_r_ok(self, sizeof(*self)) && SU_VALID(self) && 2<=self->dim && (self->isinit||self->isinit_d) && self->components!=NULL)
+__CPROVER_requires(__CPROVER_is_fresh(x, self->dim*self->dim*sizeof(double)))            /* std::vector<double> x(dim*dim): fresh storage of dim*dim numbers */
+__CPROVER_assigns(__CPROVER_object_whole(x))
+__CPROVER_ensures(gk<self->dim*self->dim ==> SQ_SAME(x[gk], self->components[gk]))
+{
+//@BODY file=src/SUNalg.cpp sig=/std::vector<double>\s+SU_vector::GetComponents\s*\(\s*\)\s*const/ rules=common,suv_method
+//@SUB /std::vector<double>\s+x\s*\(\s*dim\s*\*\s*dim\s*\)\s*;// min=1
+//@SUB /return\s+x\s*;/return;/ min=1
+//@LOOP 0 __CPROVER_assigns(i, __CPROVER_object_whole(x)) __CPROVER_loop_invariant(i<=self->dim*self->dim && (gk<i ==> SQ_SAME(x[gk], self->components[gk]))) __CPROVER_decreases(self->dim*self->dim-i)
+}
 /* ---- destructor, SetBackingStore -------------------------------------------------------------------- */
 void su_dtor(struct SU_vector* self)
 SU_DTOR_CONTRACT
@@ -205,6 +219,7 @@ void h_ctor_list(void){ struct SU_vector r;
 #endif
   double* c=malloc(64*sizeof(double)); __CPROVER_assume(c!=NULL); h_init();
   su_ctor_list(&r,c,n); __CPROVER_assert(0,"REACH end of harness"); }
+void h_GetComponents(void){ struct SU_vector v; double* x; h_init(); mk(&v); __CPROVER_assume(v.dim>=2 && (v.isinit||v.isinit_d) && v.components!=NULL); su_GetComponents(&v,x); __CPROVER_assert(0,"REACH end of harness"); }
 void h_dtor(void){ struct SU_vector v; h_init(); mk(&v); su_dtor(&v); __CPROVER_assert(0,"REACH end of harness"); }
 void h_SetBackingStore(void){ struct SU_vector v; double* s; h_init(); mk(&v); su_SetBackingStore(&v,s); __CPROVER_assert(0,"REACH end of harness"); }
 void h_assign_copy(void){ struct SU_vector a,b; h_init(); int al=mk2(&a,&b); struct SU_vector* pb=(al==1)?&a:&b;
